@@ -4,7 +4,6 @@ import (
 	"encoding/json"
 	"fmt"
 	"os"
-	"regexp"
 	"strings"
 	"testing"
 
@@ -33,12 +32,12 @@ func judgeSheetCase(c SheetCase) vdrv.Verdict {
 	if c.Single {
 		devs = cssgen.Devices[:1]
 	}
-	v := judgeSheet(c.CSS, c.Cfg, c.Single, devs)
+	v, viol := judgeSheet(c.CSS, c.Cfg, c.Single, devs)
 	if !v.OK {
 		if os.Getenv("VERIF_C12_NOKNOWN") == "" {
-			v.Known = knownSignature(c)
+			v.Known = knownSignature(c, viol)
 		} else { // debugging aid for trying out fixes: report everything, say which signature would have matched
-			v.Detail = "[signature: " + knownSignature(c) + "] " + v.Detail
+			v.Detail = "[signature: " + knownSignature(c, viol) + "] " + v.Detail
 		}
 	}
 	v.Classes = dedupe0(v.Classes)
@@ -436,54 +435,73 @@ func runCascade(t *testing.T) {
 	})
 }
 
-// knownSignature returns the id of the known finding whose narrow signature the failing case matches.
-func knownSignature(c SheetCase) string {
-	un := c.Cfg.unsupportedSet()
-	// C12-nesting-amp-in-is: nesting is lowered without :is() (both unsupported) and a nested selector has "&" inside a functional pseudo-class
-	if un["nesting"] && un["is-pseudo-class"] && reAmpInFunctional.MatchString(c.CSS) {
-		return "C12-nesting-amp-in-is"
+// knownSignature returns the id of the listed ("known") finding whose narrow signature the failing
+// case matches: a predicate over the case *and* over what failed (the longhand whose winner differs and
+// the syntax the failing environment lacks), so that another failure of the property on a sheet that
+// merely contains such a construct is still a violation. Findings that were repaired in /repo have no
+// signature any more: their replays are regression tests and a recurrence is a violation.
+func knownSignature(c SheetCase, viol *violation) string {
+	if viol == nil || viol.prop == "" {
+		return ""
 	}
-	// C12-nesting-expansion-specificity: same configuration, a parent list with selectors of different specificity has nested style rules
+	un := c.Cfg.unsupportedSet()
+	lacks := map[string]bool{}
+	for _, f := range viol.lacking {
+		lacks[f] = true
+	}
+	// C12-nesting-expansion-specificity: nesting is lowered without :is() (both unsupported) and a parent list with
+	// selectors of different specificity has nested style rules
 	if un["nesting"] && un["is-pseudo-class"] && hasMixedParentWithNested(c.CSS) {
 		return "C12-nesting-expansion-specificity"
 	}
-	// C12-nesting-amp-in-is-combinator: nesting is lowered and a nested selector has "&" inside a functional pseudo-class
-	// (the combinator in front of the parent's last compound selector is lost)
-	if un["nesting"] && reAmpInFunctional.MatchString(c.CSS) {
-		return "C12-nesting-amp-in-is-combinator"
+	// C12-nesting-is-forgiving-parent: nesting is lowered with :is(); the failing environment understands some but
+	// not all selectors of a parent list that has nested style rules (the list is all-or-nothing in the input and
+	// on the parent's own output rule, but forgiving inside the :is() the nested rules get)
+	if un["nesting"] && !un["is-pseudo-class"] && hasPartlyUnderstoodParent(c.CSS, lacks) {
+		return "C12-nesting-is-forgiving-parent"
 	}
-	// C12-inset-auto-not-lowered: inset is unsupported and an inset shorthand has a component that is not a plain number/dimension
-	if un["inset-property"] && reInsetNonNumeric.MatchString(c.CSS) {
-		return "C12-inset-auto-not-lowered"
-	}
-	// C12-box-merge-logical: minify-syntax box collapsing moves physical longhands across a logical longhand of the same family
-	if c.Cfg.MinifySyntax && reLogicalBox.MatchString(c.CSS) {
-		return "C12-box-merge-logical"
-	}
-	// C12-decl-after-nested-rule: a declaration follows a nested rule in the same block (hoisted by esbuild)
-	if hasDeclAfterNestedRule(c.CSS) {
+	// C12-decl-after-nested-rule: the failing longhand is set by a declaration that follows a nested rule in the same
+	// block (esbuild hoists it in front of the nested rules)
+	if propsDeclaredAfterNestedRule(c.CSS)[viol.prop] {
 		return "C12-decl-after-nested-rule"
 	}
-	// C12-box-merge-reorders: minify-syntax merges box longhands into a shorthand placed before a retained declaration with an "unsafe" unit
-	if c.Cfg.MinifySyntax && reBoxUnsafeUnit.MatchString(c.CSS) {
-		return "C12-box-merge-reorders"
+	// C12-box-merge-stale-side: minify-syntax; the failing longhand belongs to a box family of which one block declares
+	// the same side twice with a declaration of another side in a unit outside esbuild's safe list in between
+	if c.Cfg.MinifySyntax && hasStaleBoxSide(c.CSS, viol.prop) {
+		return "C12-box-merge-stale-side"
+	}
+	// C12-border-color-list-not-lowered: the failing longhand is a border side colour, the sheet has a 'border-color'
+	// with two or more components one of which needs a colour syntax that the configuration declares unsupported
+	// and the failing environment lacks
+	if strings.HasPrefix(viol.prop, "border-") && strings.HasSuffix(viol.prop, "-color") && hasUnloweredBorderColorList(c.CSS, un, lacks) {
+		return "C12-border-color-list-not-lowered"
 	}
 	return ""
+}
+
+func sheetItems(css string) []cssref.Item {
+	sh := cssref.Parse(css)
+	items := make([]cssref.Item, len(sh.Rules))
+	for i, r := range sh.Rules {
+		items[i] = cssref.Item{Rule: r}
+	}
+	return items
+}
+
+// containsStyleRule: the items contain a style rule, directly or through nested group rules.
+func containsStyleRule(items []cssref.Item) bool {
+	for _, it := range items {
+		if it.Rule != nil && (it.Rule.At == "" || containsStyleRule(it.Rule.Items)) {
+			return true
+		}
+	}
+	return false
 }
 
 // hasMixedParentWithNested: some style rule whose selector list has ≥2 selectors of different
 // specificity contains a nested style rule (directly or through nested group rules).
 func hasMixedParentWithNested(css string) bool {
 	env := &cssref.Env{MediaType: "screen", Not: map[string]bool{}}
-	var containsStyle func(items []cssref.Item) bool
-	containsStyle = func(items []cssref.Item) bool {
-		for _, it := range items {
-			if it.Rule != nil && (it.Rule.At == "" || containsStyle(it.Rule.Items)) {
-				return true
-			}
-		}
-		return false
-	}
 	found := false
 	var walk func(items []cssref.Item, parent *cssref.ParentSel)
 	walk = func(items []cssref.Item, parent *cssref.ParentSel) {
@@ -500,7 +518,7 @@ func hasMixedParentWithNested(css string) bool {
 			if l.Invalid {
 				continue
 			}
-			if len(l.Sels) >= 2 && containsStyle(r.Items) {
+			if len(l.Sels) >= 2 && containsStyleRule(r.Items) {
 				specs := cssref.Specificities(l, env, parent)
 				for _, s := range specs[1:] {
 					if s != specs[0] {
@@ -511,20 +529,56 @@ func hasMixedParentWithNested(css string) bool {
 			walk(r.Items, &cssref.ParentSel{List: l, Up: parent})
 		}
 	}
-	sh := cssref.Parse(css)
-	items := make([]cssref.Item, len(sh.Rules))
-	for i, r := range sh.Rules {
-		items[i] = cssref.Item{Rule: r}
-	}
-	walk(items, nil)
+	walk(sheetItems(css), nil)
 	return found
 }
 
-var reLogicalBox = regexp.MustCompile(`(margin|padding|inset)-(block|inline)|border-(start|end)-(start|end)-radius`)
-
-// hasDeclAfterNestedRule: some style rule (or nested group rule) has a declaration after a nested rule.
-func hasDeclAfterNestedRule(css string) bool {
+// hasPartlyUnderstoodParent: some style rule that contains a nested style rule has a selector list of which an
+// environment lacking the given features understands at least one selector but not all ("&" itself is not
+// counted: it is gone from the lowered output).
+func hasPartlyUnderstoodParent(css string, lacks map[string]bool) bool {
+	not := map[string]bool{}
+	for f := range lacks {
+		if f != cssref.FNesting {
+			not[f] = true
+		}
+	}
+	env := &cssref.Env{MediaType: "screen", Not: not}
 	found := false
+	var walk func(items []cssref.Item)
+	walk = func(items []cssref.Item) {
+		for _, it := range items {
+			r := it.Rule
+			if r == nil {
+				continue
+			}
+			if r.At == "" && containsStyleRule(r.Items) {
+				l := cssref.ParseSelectorList(r.Prelude, r.Nested)
+				if !l.Invalid && len(l.Sels) >= 2 {
+					good, bad := 0, 0
+					for _, cx := range l.Sels {
+						if (&cssref.SelectorList{Sels: []*cssref.Complex{cx}}).ValidIn(env) {
+							good++
+						} else {
+							bad++
+						}
+					}
+					if good > 0 && bad > 0 {
+						found = true
+					}
+				}
+			}
+			walk(r.Items)
+		}
+	}
+	walk(sheetItems(css))
+	return found
+}
+
+// propsDeclaredAfterNestedRule: the longhands set by declarations that follow a nested rule in the block of a style
+// rule (or of a group rule nested in one).
+func propsDeclaredAfterNestedRule(css string) map[string]bool {
+	found := map[string]bool{}
 	var walk func(items []cssref.Item, inStyle bool, media []string)
 	walk = func(items []cssref.Item, inStyle bool, media []string) {
 		seenRule := false
@@ -533,7 +587,11 @@ func hasDeclAfterNestedRule(css string) bool {
 			for _, it := range items {
 				if it.Decl != nil {
 					if seenRule && inStyle {
-						found = true
+						if longs, ok := cssref.Expand(it.Decl.Name, it.Decl.Value); ok {
+							for _, l := range longs {
+								found[l.Prop] = true
+							}
+						}
 					}
 					continue
 				}
@@ -559,18 +617,109 @@ func hasDeclAfterNestedRule(css string) bool {
 		}
 		visit(items)
 	}
-	sh := cssref.Parse(css)
-	items := make([]cssref.Item, len(sh.Rules))
-	for i, r := range sh.Rules {
-		items[i] = cssref.Item{Rule: r}
-	}
-	walk(items, false, nil)
+	walk(sheetItems(css), false, nil)
 	return found
 }
 
-var reBoxUnsafeUnit = regexp.MustCompile(`(?i)(margin|padding|inset|top|right|bottom|left)[a-z-]*\s*:[^;}]*[0-9](vw|vh|rem|q|ch|ex|vmin|vmax)\b`)
-var reAmpInFunctional = regexp.MustCompile(`:(is|where|not|has)\([^)]*&`)
-var reInsetNonNumeric = regexp.MustCompile(`inset\s*:[^;}]*(auto|calc\()`)
+var boxSideFamilies = map[string][]string{
+	"margin":        {"margin-top", "margin-right", "margin-bottom", "margin-left"},
+	"padding":       {"padding-top", "padding-right", "padding-bottom", "padding-left"},
+	"inset":         {"top", "right", "bottom", "left"},
+	"border-radius": {"border-top-left-radius", "border-top-right-radius", "border-bottom-right-radius", "border-bottom-left-radius"},
+}
+
+// esbuild's list of length units that every browser is expected to understand (css_ast.DimensionUnitIsSafeLength)
+var safeLengthUnits = map[string]bool{"cm": true, "em": true, "in": true, "mm": true, "pc": true, "pt": true, "px": true}
+
+func hasUnsafeUnit(cvs []cssref.CV) bool {
+	for _, c := range cvs {
+		if c.Kind == cssref.Dimension && !safeLengthUnits[strings.ToLower(c.Unit)] {
+			return true
+		}
+	}
+	return false
+}
+
+// hasStaleBoxSide: prop is a side of a box family (margin, padding, inset, border-radius) and some block declares
+// one side of that family twice (same importance, no unsafe unit) with, in between, a declaration of another side
+// of the family (or its shorthand) of the same importance whose value uses a unit outside the safe list.
+func hasStaleBoxSide(css string, prop string) bool {
+	found := false
+	for fam, sides := range boxSideFamilies {
+		isSide := map[string]bool{}
+		for _, s := range sides {
+			isSide[s] = true
+		}
+		if !isSide[prop] {
+			continue
+		}
+		var walk func(items []cssref.Item)
+		walk = func(items []cssref.Item) {
+			var decls []*cssref.Decl
+			for _, it := range items {
+				if it.Decl != nil {
+					decls = append(decls, it.Decl)
+				} else if it.Rule != nil {
+					walk(it.Rule.Items)
+				}
+			}
+			for i, a := range decls {
+				if !isSide[a.Name] || hasUnsafeUnit(a.Value) {
+					continue
+				}
+				unsafeBetween := false
+				for _, b := range decls[i+1:] {
+					if b.Important != a.Important {
+						continue
+					}
+					if b.Name == a.Name && unsafeBetween && !hasUnsafeUnit(b.Value) {
+						found = true
+					}
+					if (isSide[b.Name] || b.Name == fam) && b.Name != a.Name && hasUnsafeUnit(b.Value) {
+						unsafeBetween = true
+					}
+				}
+			}
+		}
+		walk(sheetItems(css))
+	}
+	return found
+}
+
+// hasUnloweredBorderColorList: a 'border-color' declaration with ≥2 components needs a colour syntax feature that
+// the configuration declares unsupported and the failing environment lacks.
+func hasUnloweredBorderColorList(css string, un, lacks map[string]bool) bool {
+	found := false
+	var walk func(items []cssref.Item)
+	walk = func(items []cssref.Item) {
+		for _, it := range items {
+			if it.Rule != nil {
+				walk(it.Rule.Items)
+				continue
+			}
+			d := it.Decl
+			if d == nil || d.Name != "border-color" {
+				continue
+			}
+			n := 0
+			for _, c := range d.Value {
+				if c.Kind != cssref.Whitespace {
+					n++
+				}
+			}
+			if n < 2 {
+				continue
+			}
+			for f := range cssref.ValueFeatures(d.Name, d.Value) {
+				if cssref.IsTableFeature(f) && un[f] && lacks[f] {
+					found = true
+				}
+			}
+		}
+	}
+	walk(sheetItems(css))
+	return found
+}
 
 var subs = map[string]vdrv.ReplayFunc{"color": replaySheet, "calc": replaySheet, "cascade": replaySheet, "import": replayImport, "modules": replayModules}
 
